@@ -430,3 +430,11 @@ pub fn ck_sub<T: CkArith>(a: T, b: T) -> (r: T) ensures r.ai() == a.ai() - b.ai(
 pub fn ck_mul<T: CkArith>(a: T, b: T) -> (r: T) ensures r.ai() == a.ai() * b.ai() { a.ck_mul_(b) }
 pub fn ck_div<T: CkArith>(a: T, b: T) -> (r: T) ensures b.ai() != 0, r.ai() == rust_div(a.ai(), b.ai()) { a.ck_div_(b) }
 pub fn ck_rem<T: CkArith>(a: T, b: T) -> (r: T) ensures b.ai() != 0, r.ai() == rust_rem(a.ai(), b.ai()) { a.ck_rem_(b) }
+
+impl Env {
+    /// `panic_with_error!` after macro expansion: `(&e).panic_with_error(err)`
+    #[verifier::external_body]
+    pub fn panic_with_error<E>(&self, err: E) -> !
+        ensures false
+    { panic!() }
+}
